@@ -134,10 +134,15 @@ func c142(c *an.Ctx, p *an.Prog) {
 				bad = append(bad, "salt "+why)
 			} else {
 				rd := s.Events[idx].Res
-				okLen := false
+				okLen := s.Events[idx].Callee == "io.ReadFull" // err == nil means the buffer was filled completely
 				for _, a := range s.Atoms {
-					if a.Op == "==" && a.A.K == extractOf(rd, 0).K && a.B.IsConst("16") {
-						okLen = true
+					if a.Op == "==" && a.B != nil && a.A.K == extractOf(rd, 0).K {
+						if a.B.IsConst("16") {
+							okLen = true
+						}
+						if lc, _ := a.B.CallOf(); lc != nil && lc.Aux == "builtin len" && lc.Args[0].K == salt.K {
+							okLen = true
+						}
 					}
 				}
 				if !okLen {
